@@ -114,6 +114,9 @@
     (and
         (>= (len x) 3)
         (all (gfor  e x  (is (type e) hy.models.Symbol)))
+        ; A part that itself contains a dot (such as `...`) can't be
+        ; written in dotted-identifier syntax.
+        (all (gfor  e (cut x 1 None)  (not-in "." e)))
         (or (= x0 '.) (and
           (= x1 'None)
           (not (.strip (str x0) ".")))))
